@@ -67,6 +67,14 @@ claim("C19", "Coq proof by computation over the regenerated list of static-stora
       "Proof: Gen/Globals.v is regenerated on every run from the objects compiled from the working tree and the clang AST of each unit; the theorem (vm_compute) says no object in a writable section is ever stored to or has its address passed to a non-const pointer, and that the known lookup tables are present and read-only. A data race needs shared mutable state; its absence is what is proved. Dynamic part: instances driven in interleaved order in one process must return what they return alone (LZX E8, Quantum, MSZIP, CHM). Real thread schedules, and state reachable only through the caller's mspack_system, are outside the model.",
       NOTE, "4/C19")
 
+claim("C18", "Coq proof (each relaxed decision rule accepts what the strict rule accepts, with the same result; what salvage recovers) + four-combination differential runs on valid and derived cabinets",
+      "Proof: for the file-table rule, the block size limits, the block checksum test and the member-length rule, strict acceptance implies relaxed acceptance with the same result; salvage lists exactly the valid entries in order; a block with intact data and a wrong non-zero stored checksum is refused strictly and accepted with the flag (6 theorems, closed). The rules are decision-level models of cabd.c; their tie is the oracle: generated cabinets and sets under the four SALVAGE x FIXMSZIP combinations give identical listings and bytes, and derived cabinets (bad folder indices, wrong stored checksums) are recovered exactly in the relaxed modes and refused in strict mode.",
+      NOTE, "4/C18")
+
+claim("C17", "Coq proof (per-member loop selects the same members in every mode; error count and exit status; permission bits swept over all umasks) + the built binary in all modes on generated cabinets and sets",
+      "Proof: for arbitrary filter / extract / path / overwrite functions, every mode acts on exactly the filtered members in listing order; listing never fails; exit status zero iff no selected member failed; permission bits are 0444 | EXEC?0111 | !RDONLY?0222 minus the umask for all attribute combinations and all 512 umasks (finite sweep). The loop model is an abstraction of process_cabinet; fnmatch, mktime and MD5 are libc / separate code. Tie and search: the binary built from the tree on generated cabinets and sets in -l / -t / -p / extract with -F, -d, -q, from every part of a set - listings, timestamps, MD5s, piped bytes, file bytes, mtimes and mode bits (against the extracted port), exit status.",
+      NOTE, "4/C17")
+
 def main():
     props = [json.loads(l)["id"] for l in open(os.path.join(V, "properties.jsonl"))]
     # only claim what has a check module
